@@ -173,7 +173,10 @@ impl<K: Hash + Eq, KH: KeyHasher<K>, S: BuildHasher> SampledLFU<K, KH, S> {
     /// Put a hashed key and cost to SampledLFU
     #[inline]
     pub fn increment_hashed_key(&mut self, key: u64, cost: i64) {
-        self.key_costs.insert(key, cost);
+        // an already tracked key is re-costed: take its previous cost out of the total
+        if let Some(prev) = self.key_costs.insert(key, cost) {
+            self.used -= prev;
+        }
         self.used += cost
     }
 
